@@ -181,6 +181,34 @@ def forwarding(st):
                     st.violation(case, f'pipeline score {got.get(("f", "label"))!r} with ratio {r} != direct estimator call {exp!r}', {'kind': 'forward_value'})
 
 
+def forwarding_cli(st):
+    """the flag as given on the real command line must reach the estimator (whole task, argparse namespace)"""
+    from mc import pipeline
+    for n, ratio in ((8, 0.5), (12, 0.75), (12, 0.25), (9, 0.875)):
+        Xn = [(i * 5 + i // 3) % 3 for i in range(n)]
+        Yn = [(i * 3 + 1 + i // 4) % 4 for i in range(n)]
+        text = 'f,label\n' + ''.join(f'{y},{x}\n' for y, x in zip(Yn, Xn))
+        over = dict(task='ranking', minibatch_size=n, subsampling=1, heuristic='MI-numba-randomized', mi_stratified_sampling_ratio=ratio, include_cardinality_in_feature_names='False', target_ranking_only='True')
+        for via_cli in (False, True):
+            ok, obs = safe(pipeline.run_task, text, over, via_cli=via_cli)
+            st.count('evaluations')
+            st.count('forwarding_cases')
+            case = {'kind': 'forward_cli', 'n': n, 'r': ratio, 'via_cli': via_cli}
+            if not ok or not obs.get('pairwise'):
+                st.violation(case, f'task failed: {obs if not ok else obs.get("exit")}', {'kind': 'forward_exception'})
+                continue
+            got = {(r[0], r[1]): float(r[2]) for r in obs['pairwise'][1:]}
+            cy = [sorted({str(v) for v in Yn}).index(str(v)) for v in Yn]
+            cx = [sorted({str(v) for v in Xn}).index(str(v)) for v in Xn]
+            exp = est.score(cy, cx, ratio, True)
+            plain = est.score(cy, cx, 1.0, True)
+            if abs(exp - plain) < 1e-9:
+                st.count('forwarding_indistinguishable')
+            if abs(got.get(('f', 'label'), 9e9) - exp) > 1e-6:
+                st.violation(case, f'--mi_stratified_sampling_ratio {ratio} ({"command line" if via_cli else "namespace"}): task score {got.get(("f", "label"))!r}, direct estimator call with that ratio {exp!r} (without sampling {plain!r})',
+                             {'kind': 'forward_value', 'via_cli': via_cli})
+
+
 def run(ctx):
     # (i)
     nmax = 8 if ctx.thorough else 7
@@ -191,6 +219,7 @@ def run(ctx):
         ctx.stats.merge(st)
     # (iii)
     forwarding(ctx.stats)
+    forwarding_cli(ctx.stats)
     # (ii)
     root = scratch_dir('c04')
     try:
@@ -233,6 +262,10 @@ def eval_case(case):
     if k == 'pyfunc':
         fails, _, _ = judge_pyfunc(tuple(case['X']), case['r'])
         return [m for _, m in fails]
+    if k == 'forward_cli':
+        st = Stats()
+        forwarding_cli(st)
+        return [v['what'] for v in st.violations]
     if k == 'forward':
         st = Stats()
         forwarding(st)
